@@ -113,6 +113,7 @@ class Compiler:
         if t.startswith('copy '): return ('copy', s.place(t[5:]))
         if t.startswith('move '): return ('move', s.place(t[5:]))
         if t.startswith('const '): return ('const', s.const(body, t[6:].strip()))
+        if re.match(r'^[<\w]', t): return ('const', ('named', strip_lifetimes(t)))   # bare fn item
         raise Unsupported('operand ' + t)
 
     def operand_type(s, body, op, text):
@@ -398,6 +399,10 @@ class Exec:
         s.stack = []
         s.float_defs = {}
         s.side = {}             # harness scratch
+        s.unordered = set()
+
+    def note_unordered(s, ty):
+        if ty.startswith('Hash'): s.unordered.add(ty)
 
     def fresh(s, prefix, sort):
         s.fresh_n += 1
@@ -1137,9 +1142,9 @@ class Exec:
         m = s.find_model('!' + site.key)
         if m is not None: return ('model', m)
         if site.kind == 'trait':
-            if site.tparam: return ('dyn',)
             st = strip_generics(site.self_ty.lstrip('&').replace('mut ', '').strip())
             tyc = prog.canon_type(st) if re.match(r'^[\w:]+$', st) else None
+            if site.tparam and not (tyc is not None and prog.typedef(tyc) is not None): return ('dyn',)
             if tyc is not None:
                 b = prog.find_method(tyc, site.trait, site.method, site.trait_args)
                 if b is not None: return ('body', b)
